@@ -5,6 +5,7 @@ package c15
 import (
 	"encoding/json"
 	"fmt"
+	"io"
 	"os"
 	"path/filepath"
 	"sort"
@@ -151,6 +152,10 @@ func (r *runner) issue(e *env, cl cell, password string) (full []string, out out
 		}
 		return full, classifyHTTP(h), nil
 	}
+	if cl.cb.transport == "telnet" || cl.cb.transport == "native" {
+		out, err := r.issueText(e, cl, full)
+		return full, out, err
+	}
 	wantJS := cl.cb.output == "json"
 	fresh := cl.cmd.fresh || e.mode == mNoauth || password != ""
 	var c *respc.Conn
@@ -203,6 +208,66 @@ func (r *runner) issue(e *env, cl cell, password string) (full []string, out out
 		return full, outcome{"closed", err.Error()}, nil
 	}
 	return full, classify(rp), nil
+}
+
+// issueText sends the command over the plain-text ("telnet") or the native
+// "$<len> <line>" protocol on a fresh connection.
+func (r *runner) issueText(e *env, cl cell, full []string) (outcome, error) {
+	c, err := dial(e.s.Addr())
+	if err != nil {
+		return outcome{}, err
+	}
+	defer c.Close()
+	to := ioTimeout
+	if cl.cmd.live || cl.cmd.name == "QUIT" {
+		to = 400 * time.Millisecond
+	}
+	if cl.cb.transport == "telnet" {
+		var q []string
+		for _, a := range full {
+			a = strings.ReplaceAll(a, "\\", "\\\\")
+			a = strings.ReplaceAll(a, "\"", "\\\"")
+			a = strings.ReplaceAll(a, "\n", "\\n")
+			a = strings.ReplaceAll(a, "\r", "\\r")
+			q = append(q, "\""+a+"\"")
+		}
+		if err := c.WriteRaw([]byte(strings.Join(q, " ") + "\r\n")); err != nil {
+			return outcome{"closed", err.Error()}, nil
+		}
+		rp, err := c.RecvTimeout(to)
+		if err != nil {
+			if respc.IsTimeout(err) {
+				return outcome{"timeout", err.Error()}, nil
+			}
+			return outcome{"closed", err.Error()}, nil
+		}
+		return classify(rp), nil
+	}
+	line := strings.Join(full, " ")
+	if err := c.WriteRaw([]byte(fmt.Sprintf("$%d %s\r\n", len(line), line))); err != nil {
+		return outcome{"closed", err.Error()}, nil
+	}
+	c.C.SetReadDeadline(time.Now().Add(to))
+	head, err := c.R.ReadString(' ')
+	if err != nil {
+		if respc.IsTimeout(err) {
+			return outcome{"timeout", err.Error()}, nil
+		}
+		return outcome{"closed", err.Error() + " " + trunc(head, 80)}, nil
+	}
+	n := 0
+	if _, err := fmt.Sscanf(head, "$%d ", &n); err != nil || n < 0 || n > 1<<26 {
+		return outcome{"ok", "unparsed native reply: " + trunc(head, 80)}, nil
+	}
+	buf := make([]byte, n+2)
+	if _, err := io.ReadFull(c.R, buf); err != nil {
+		return outcome{"closed", err.Error()}, nil
+	}
+	body := strings.TrimSpace(string(buf))
+	if strings.HasPrefix(body, `{"ok":false`) {
+		return outcome{"err", trunc(body, 300)}, nil
+	}
+	return outcome{"ok", trunc(body, 300)}, nil
 }
 
 func shrinkEnded(s *srv.Server) int { return strings.Count(s.AllStderr(), "aof shrink ended") }
@@ -268,7 +333,7 @@ func (r *runner) reference(state int, cbs []combo, wn map[string]map[string]bool
 			if _, ok := res[cl.refKey()]; ok {
 				continue
 			}
-			if cl.cb.transport == "http" {
+			if cl.cb.transport == "http" || cl.cb.transport == "native" {
 				if a, _ := r.argsFor(e, cl.cmd); a != nil {
 					if _, full := wrap(cl.w, a); !httpEncodable(full) {
 						continue
@@ -292,7 +357,7 @@ func (r *runner) reference(state int, cbs []combo, wn map[string]map[string]bool
 			}
 			if cl.cmd.name == "AOFSHRINK" && out.Class == "ok" {
 				if !waitShrink(e.s, nshr) {
-					ctx.Inconclusive("AOFSHRINK did not end in 30 s on the leader")
+					ctx.Inconclusive(fmt.Sprintf("AOFSHRINK did not end in 30 s on the leader: %q %s %v; stderr: %s", full, cl.cb, out, e.s.StderrTail(600)))
 					return false
 				}
 			}
@@ -372,8 +437,8 @@ func violationKey(mode string, cl cell, suffix string) string {
 		return "gate:evalro-evalcmd-rebind"
 	}
 	k := "gate:" + mode + ":" + strings.ToLower(strings.ReplaceAll(cl.cmd.name, " ", "-")) + ":" + cl.w.name
-	if cl.cb.transport == "http" {
-		k += ":http"
+	if cl.cb.transport != "resp" {
+		k += ":" + cl.cb.transport
 	}
 	if suffix != "" {
 		k += ":" + suffix
@@ -631,6 +696,8 @@ func Run(ctx *core.Ctx) {
 	states := []int{0}
 	if ctx.Thorough() {
 		wn["resp/json"], wn["http/json"] = all, all
+		cbs = append(cbs, combo{"telnet", "resp"}, combo{"native", "json"})
+		wn["telnet/resp"], wn["native/json"] = subset, subset
 		states = []int{0, 1, 2}
 	}
 	password := fmt.Sprintf("S3cret-%04d", ctx.Rng.Intn(10000))
